@@ -14,7 +14,10 @@ class T1(Component):
 
 
 class T2(Component):
-    pass
+    """a component that is falsy as an object (container-like, currently empty)"""
+
+    def __len__(self):
+        return 0
 
 
 def _population(m, n, comps, tags):
@@ -203,7 +206,17 @@ def shuffle_perm(a1: bool, b1: bool, c1: bool, d1: bool, w1: bool, r0: int, r1: 
     res = _population(m, n, [(a1, False), (b1, False), (c1, False), (d1, False)], [0, 0, 0, 0])
     tmpl = [T1] if w1 else []
     spec = [a for a in res if (not w1) or T1 in a.components]
-    got = m.environment.shuffle(*tmpl)
+    if hx.P.get('elsewhere'):
+        # the environment queried is NOT model.environment (a holding container / the former environment)
+        shown = Environment(m, id="FIELD")
+        x = Agent("field0", m)
+        x.add_component(T1(x, m))
+        shown.add_agent(x)
+        queried = m.environment
+        m.set_environment(shown)
+        got = queried.shuffle(*tmpl)
+    else:
+        got = m.environment.shuffle(*tmpl)
     # Fisher-Yates as random.Random.shuffle performs it, driven by the same stream
     exp = list(spec)
     rs = [r0, r1, r2]
@@ -228,10 +241,11 @@ def shuffle_perm(a1: bool, b1: bool, c1: bool, d1: bool, w1: bool, r0: int, r1: 
                 cnt += 1
         if cnt != 1:
             return hx.end(hx.fail("shuffle is not a permutation of the filtered agents"))
-    if not hx.same_seq(list(m.environment.agents.values()), res):
+    env_q = queried if hx.P.get('elsewhere') else m.environment
+    if not hx.same_seq(list(env_q.agents.values()), res):
         return hx.end(hx.fail("shuffle altered the environment order"))
     got.append(None)
-    if len(m.environment.get_agents()) != n:
+    if len(env_q.get_agents()) != n:
         return hx.end(hx.fail("shuffle returned the environment's own list"))
     return hx.end(True)
 
@@ -322,7 +336,7 @@ def obligations(tier):
           labels=("none", "last_member", "filtered_pick"),
           labels_for=lambda p: ("none",) if p["n"] == 0 else ("none", "last_member", "filtered_pick"), timeout=900,
           encoded=(Environment.get_random_agent, Environment.get_agents), bounds={"draw": "any int >= 0"}),
-        X("shuffle_perm", shuffle_perm, parts=[{"n": n} for n in ((2, 3) if tier == "quick" else (1, 2, 3, 4))],
+        X("shuffle_perm", shuffle_perm, parts=[{"n": n} for n in ((2, 3) if tier == "quick" else (1, 2, 3, 4))] + [{"n": 2, "elsewhere": True}],
           labels=("shuffled", "filtered_shuffle"), timeout=900, encoded=(Environment.shuffle, Environment.get_agents)),
         X("after_history", after_history, parts=_hist(3 if tier == "quick" else 4), labels=("done",), timeout=300, group=4,
           encoded=enc + (Environment.add_agent, Environment.remove_agent)),
